@@ -88,8 +88,22 @@ func genC07(t *rapid.T) c07Case {
 	c := c07Case{Pool: genPool(t)}
 	vcfg := core.GenCfg{MaxBytes: 1024, ContainerMax: 5, HolderBytes: true}
 	n := rapid.IntRange(6, 24).Draw(t, "nsteps")
+	// the types built to share scratch state (maps of by-value structs, same required ids, holders)
+	// get half of the steps, whatever else is in the pool
+	var sharing []int
+	for i, s := range c.Pool {
+		if len(s.Fields) > 0 && s.Name == "" {
+			switch s.Fields[0].Name[:2] {
+			case "W_", "M_", "N_", "R_", "Q_", "P_":
+				sharing = append(sharing, i)
+			}
+		}
+	}
 	for i := 0; i < n; i++ {
 		st := c07Step{T: rapid.IntRange(0, len(c.Pool)-1).Draw(t, "t")}
+		if len(sharing) > 0 && rapid.Bool().Draw(t, "sharing") {
+			st.T = sharing[rapid.IntRange(0, len(sharing)-1).Draw(t, "tsharing")]
+		}
 		s := c.Pool[st.T]
 		st.Op = rapid.SampledFrom([]string{"size", "encode", "encode", "decode", "decode", "decode", "decodebad", "decodebad", "invalid"}).Draw(t, "op")
 		switch st.Op {
@@ -130,6 +144,23 @@ func genC07(t *rapid.T) c07Case {
 		}
 		st.Fresh = rapid.IntRange(0, 9).Draw(t, "fresh") == 0
 		c.Steps = append(c.Steps, st)
+	}
+	// a pair placed somewhere in the history: a decode of a densely populated value that ends early
+	// inside its containers, then a decode of a sparse value of the same type (whatever the first one
+	// left in pooled scratch state shows where the second message says nothing)
+	if len(sharing) > 0 && rapid.Bool().Draw(t, "pair") {
+		ti := sharing[rapid.IntRange(0, len(sharing)-1).Draw(t, "pairt")]
+		s := c.Pool[ti]
+		dense := core.GenStructVal(t, core.GenCfg{NoNil: true, CountChoices: []int{2, 3}, MaxBytes: 1024}, s)
+		dm := core.RefEncode(s, dense)
+		if cuts := boundaryCuts(dm); len(cuts) > 2 {
+			dm = dm[:cuts[len(cuts)/3+rapid.IntRange(0, len(cuts)-len(cuts)/3-1).Draw(t, "paircut")]]
+			sparse := core.GenStructVal(t, core.GenCfg{NoNil: true, CountChoices: []int{1, 2}, MaxBytes: 512}, s)
+			sm, _ := genWireMsg(t, s, sparse, wireEditCfg{Drop: true})
+			at := rapid.IntRange(0, len(c.Steps)).Draw(t, "pairat")
+			pair := []c07Step{{Op: "decodebad", T: ti, Msg: dm}, {Op: "decode", T: ti, Msg: sm}}
+			c.Steps = append(c.Steps[:at:at], append(pair, c.Steps[at:]...)...)
+		}
 	}
 	return c
 }
